@@ -879,6 +879,20 @@ pub fn g_tables(w: &mut W, rng: &mut Rng, shard: u64, nshards: u64, thorough: bo
             }
         }
     }
+    // G-ill (calibration of model/Safety.v, never counted for a property): statuses the engine cannot
+    // report - a pushed elephant, a pulling rabbit, an off-board square - must panic in
+    // transposition_hash exactly where the model's guard `queries_safe` is false
+    for (kind, sq, pk) in [(2u64, 0u64, 5u64), (2, 27, 5), (2, 63, 5), (1, 0, 0), (1, 36, 0), (1, 63, 0), (1, 64, 3), (2, 64, 2), (1, 200, 5), (2, 255, 0)] {
+        idx += 1;
+        if idx % nshards != shard {
+            continue;
+        }
+        w.begin("table-ill-status");
+        if let Some(gs) = w.init_new([0; 7], true, 2, 1, (kind, sq, pk), false) {
+            w.watch(&gs, 1);
+        }
+        w.end();
+    }
     let n_dense = if thorough { 2000 } else { 200 };
     for _ in 0..n_dense {
         idx += 1;
